@@ -584,7 +584,12 @@ func (e *Enc) resolveModifies(ct *Contract, env *SpecEnv) []modItem {
 		case x.Op == "id" && e.r.v.specs.Stores[x.S] != nil:
 			sd := e.r.v.specs.Stores[x.S]
 			env.storeArr(sd)
-			items = append(items, modItem{state: sd.KV})
+			if strings.HasPrefix(sd.KeyFun, "str:") || sd.KeyFun == "byte0" {
+				// singleton store under a constant key: only that raw key changes
+				items = append(items, modItem{state: sd.KV, key: env.storeKey(sd, nil)})
+			} else {
+				items = append(items, modItem{state: sd.KV})
+			}
 		case x.Op == "index" && x.Args[0].Op == "id" && x.Args[0].S == "Bank":
 			e.ensureState("bank", "(Array Addr (Array Str Int))")
 			k := env.expr(x.Args[1])
